@@ -160,6 +160,11 @@ Theorem C16cs_addr_map_serialize_form : forall rs items, ser_items addr_rec_ty r
 Proof. exact addr_map_serialize_form. Qed.
 Print Assumptions C16cs_addr_map_serialize_form.
 
+(* the version byte DSNwkAddrMap.serialize writes is 2 (nvids.py: `version = 2`); the empty map is 04 00 00 02 00 00 (byte count 4: the count field does not count itself) *)
+Theorem C16cs_addr_map_version_is_2 : addr_map_version = 2%N /\ serialize_addr_map [] = Some [4; 0; 0; 2; 0; 0]%N.
+Proof. split; reflexivity. Qed.
+Print Assumptions C16cs_addr_map_version_is_2.
+
 (* any header values around the entry count (the parser reads entry_count only) *)
 Theorem C16cs_addr_map_parse_read_layout : forall rs items bc ver al r,
   ser_items addr_rec_ty rs = Some items -> length rs < 256 ->
